@@ -87,10 +87,12 @@ theorem C02_undefined_short_key_refused (cfg : Cfg) (inits : List DVal) (prog : 
 
 /-- **Every key is known (long keys).**  A word `--name` or `--name=value` (same positions as above)
     whose name is not a key specification, or is one that does not resolve to an argument (unknown, or
-    an ambiguous abbreviation, or abbreviations are off), makes the evaluation end with an exception. -/
+    an ambiguous abbreviation, or abbreviations are off), makes the evaluation end with an exception.
+    `wordKey name` is the key the handler looks the name up with: `Key.parse name`, and for a name of
+    one character `Key.parse "--c"`, the LONG key `c` (`fix:` for the finding one-char-long-key). -/
 theorem C02_unknown_long_key_refused (cfg : Cfg) (inits : List DVal) (prog : Word) (pre post : List Word)
     (b : Char) (r : Word) (hpre : ∀ u ∈ pre, NoSep u)
-    (hunk : ∀ k i d, Key.parse ((b :: r).takeWhile (· != '=')) = .ok k → findArg cfg.abbr cfg.table k ≠ .ok (some (i, d)))
+    (hunk : ∀ k i d, wordKey ((b :: r).takeWhile (· != '=')) = .ok k → findArg cfg.abbr cfg.table k ≠ .ok (some (i, d)))
     (hf : HState) :
     evalArguments cfg (cfg.initState inits) {} (prog :: (pre ++ ('-' :: '-' :: b :: r) :: post)) ≠ .ok hf := by
   intro he
@@ -113,7 +115,7 @@ theorem C02_missing_value_refused_short (cfg : Cfg) (inits : List DVal) (prog : 
     `=`), exact or abbreviated. -/
 theorem C02_missing_value_refused_long (cfg : Cfg) (inits : List DVal) (prog : Word) (pre post : List Word)
     (b : Char) (r : Word) (k : Key) (i : Nat) (d : ArgDef) (hpre : ∀ u ∈ pre, NoSep u) (hne : '=' ∉ b :: r)
-    (hk : Key.parse (b :: r) = .ok k) (hr : findArg cfg.abbr cfg.table k = .ok (some (i, d)))
+    (hk : wordKey (b :: r) = .ok k) (hr : findArg cfg.abbr cfg.table k = .ok (some (i, d)))
     (hm : d.vmode = .required) (hpost : NoValueWord post) (hf : HState) :
     evalArguments cfg (cfg.initState inits) {} (prog :: (pre ++ ('-' :: '-' :: b :: r) :: post)) ≠ .ok hf := by
   intro he
@@ -175,7 +177,7 @@ example (hf : HState) : evalArguments RulesExample.cfg (RulesExample.cfg.initSta
   C02_unknown_long_key_refused RulesExample.cfg RulesExample.inits "p".toList ["-q".toList] [] 'n' "osuch".toList
     (by decide) (by
       intro k i d hk
-      have h2 : Key.parse (('n' :: "osuch".toList).takeWhile (· != '=')) = .ok ⟨none, "nosuch".toList⟩ := by rfl
+      have h2 : wordKey (('n' :: "osuch".toList).takeWhile (· != '=')) = .ok ⟨none, "nosuch".toList⟩ := by rfl
       rw [h2] at hk
       cases hk
       intro h
